@@ -248,7 +248,10 @@ class Ctx:
         r = subprocess.run(["cargo", "test", "--offline", "--no-fail-fast", "--quiet"], cwd="/repo", env=env,
                            stdout=subprocess.PIPE, stderr=subprocess.STDOUT, text=True)
         if "error: could not compile" in r.stdout or "error[E" in r.stdout:
-            raise ToolError("the repository does not build with the verification hooks:\n" + r.stdout[-3000:])
+            # hooks are an extra observation path, never a verdict's precondition
+            self.notes.append("repository tests could not be built with the verification hooks; trace path skipped")
+            log("[hooks] skipped: the repository does not build with --cfg toodee_verif")
+            return
         files = sorted(glob.glob(os.path.join(tdir, "*.ndjson")))
         logp = os.path.join(self.outdir, "hooktrace.events.ndjson")
         nev = 0
@@ -264,7 +267,8 @@ class Ctx:
                         nev += 1
         self.notes.append("repository test-suite with hooks: %d threads traced, %d shape transitions, cargo test rc=%d" % (len(files), nev, r.returncode))
         if nev == 0:
-            raise ToolError("the hooked test-suite produced no trace (hooks missing from /repo?)")
+            self.notes.append("the hooked test-suite produced no trace (hooks missing from /repo?); trace path skipped")
+            return
         ok, rejected, states = core.validate_trace(self.outdir, "hooktrace", module, logp, invariants=("TypeOK",))
         self.events_validated += ok
         self.traces_validated += len(files)
